@@ -932,6 +932,20 @@ func runC08(c *Cfg) {
 			cases = append(cases, &BatchCase{Family: "limit-chosen-in-prep", N: n, C: pc[1], Budget: 1, Items: it, Shape: "results", Build: []string{"builder", "options"}[n%2], ExecStyle: []string{"result", "any"}[pc[0]%2], Gated: true, Policy: []string{"last", "first", "random"}[(pc[0]+n)%3], PSeed: uint64(n + pc[0]), PrepSets: &PrepSets{BuiltC: pc[0]}})
 		}
 	}
+	// stop mode with retries: while one item is between two of its attempts (the retry is parked, it has not failed for
+	// good), a worker that becomes free takes the next item — the limit stays usable
+	for _, cc := range []int{2, 3} {
+		for _, n := range []int{cc + 2, 3 * cc} {
+			it := make([]ItemScript, n)
+			for j := range it {
+				it[j].K = 1
+			}
+			it[0].K = 2
+			// release item 0's failing first attempt, then (with its second attempt parked) the OTHER executions, highest first
+			cases = append(cases, &BatchCase{Family: "limit-in-stop-mode-with-an-open-retry", N: n, C: cc, Stop: true, SetMode: true, Budget: 2, Items: it, Shape: "results", Build: "builder", ExecStyle: []string{"result", "any"}[n%2], Gated: true, Policy: "last", Choices: []int{0}})
+			cases = append(cases, &BatchCase{Family: "limit-in-stop-mode-with-an-open-retry", N: n, C: cc, Stop: true, SetMode: true, Budget: 3, Items: it, Shape: "results", Build: "options", ExecStyle: "result", Gated: true, Policy: "last", Choices: []int{0}})
+		}
+	}
 	// long sequential batches: strictly one at a time, in item order
 	for _, n := range []int{41, 64} {
 		it := make([]ItemScript, n)
